@@ -202,6 +202,33 @@ def check(ctx, case):
 				for qi in range(min(2, nq)):
 					sigs[qi] = calc_signature(kspec, build.last_seqs[qi % len(build.last_seqs)])
 			res = query(db, sigs, QueryParams(classify_strict=case.get('strict', False), report_closest=rng.choice([1, 3, 10]), chunksize=case.get('chunksize', 1000)), inputs=inputs)
+			if case.get('surrogate'):
+				# labels as a non-UTF-8 file name gives them (`os.fsdecode`: lone surrogates): the JSON export, compact or pretty, to a real file
+				# must stay valid JSON carrying the same labels, and the archive must give them back (judged here: such text cannot cross the
+				# line protocol, whose strings are UTF-8)
+				import attr, os
+				labs = [os.fsdecode(b'caf\xe9_isolate_' + str(i).encode()) for i in range(len(res.items))]
+				res = attr.evolve(res, items=[attr.evolve(it, input=QueryInput(lab)) for it, lab in zip(res.items, labs)])
+				pf = []
+				for pretty in (False, True):
+					pj = sc.path(f'sur{int(pretty)}.json')
+					try:
+						JSONResultsExporter(pretty=pretty).export(pj, res)
+						got = [x['query']['name'] for x in json.loads(pj.read_bytes().decode('utf-8'))['items']]
+						if got != labs:
+							pf.append(f'JSON export (pretty={pretty}) carries labels {got!r} for {labs!r}')
+					except Exception as e:
+						pf.append(f'JSON export (pretty={pretty}) of labels from a non-UTF-8 file name to a file: {exc_kind(e)}: {str(e)[:120]}')
+				pa = sc.path('sur.archive.json')
+				try:
+					ResultsArchiveWriter().export(pa, res)
+					back = ResultsArchiveReader(db.session).read(pa)
+					if [it.input.label for it in back.items] != labs or not (back == res):
+						pf.append('archive of results with labels from a non-UTF-8 file name is not read back equal')
+				except Exception as e:
+					pf.append(f'archive of results with labels from a non-UTF-8 file name: {exc_kind(e)}: {str(e)[:120]}')
+				case['_nt'] = True
+				return [], pf
 			if case.get('tz') is not None:
 				# a timezone-aware / fractional / whole-second timestamp and caller-supplied extra metadata are part of the results too
 				import attr
@@ -443,6 +470,8 @@ def run(ctx):
 	for j in range(ctx.q(6, 40)):
 		# present-but-falsy values (distance 0.0, threshold 0.0, NCBI id 0, empty description): early, so that a loaded machine still reaches them
 		sub({'seed': rng.randrange(10 ** 9), 'zeros': True, 'strict': j % 3 == 2, 'awkward': j % 2 == 0, 'chunksize': 1000, 'to_path': None}, 'falsy-values')
+	for j in range(ctx.q(3, 20)):
+		sub({'seed': rng.randrange(10 ** 9), 'surrogate': True, 'strict': j % 2 == 1, 'awkward': False, 'chunksize': 1000}, 'labels-from-non-utf8-file-names')
 	for j in range(ctx.q(6, 45)):
 		# the results `gambit query -s FILE` exports, through the archive and back: labels are the file's IDs (strings, digit strings, integers)
 		sub({'seed': rng.randrange(10 ** 9), 'cli_sigfile': True, 'ids': ['int', 'str', 'digits'][j % 3], 'awkward': j % 2 == 0}, 'cli-sigfile-archive')
